@@ -38,6 +38,9 @@ UNIVERSE = [
 EXTRA = [
     (2, 'A', 'ab', V1, V1, V1, ('x', 'y'), 'x1-prefix-named-author'),
     (4, 'B', 'b', V1, V1, V1, ('x', 'y'), 'x2-same-bytes-as-e1'),
+    # the factories' default run id is -1: a legal run id like any other
+    (-1, 'C', 'a', V1, V1, V1, ('x', 'y'), 'x3-default-run-id-minus-one'),
+    (1, 'C', 'a', V1, V1, V1, ('x', 'y'), 'x4-run-1-of-the-same-identity'),
 ]
 SAME_BYTES = {'x2-same-bytes-as-e1': 'e1', 'e4': 'e1'}
 CONFIGS = {'base': (V1, V1, V1), 'alg': (VA, V1, V1), 'sv': (V1, VS, V1), 'val': (V1, V1, VV)}
@@ -82,16 +85,16 @@ def ref_load(ref, run, tgt, alg, cfg, k):
     return same[max(same)]
 
 
-def all_loads(ctx, ref, rep, phase, quick_subset=False):
+def all_loads(ctx, ref, rep, phase, quick_subset=False, targets=('A', 'B', 'C')):
     import dawgie
     import dawgie.db
     from dawgie.db.shelve.state import DBI
     from . import mini
 
     outcomes = 0
-    runs = (1, 2, 3, 4, 6) if quick_subset else (1, 2, 3, 4, 5, 6)
+    runs = (-1, 1, 2, 3, 4, 6) if quick_subset else (-1, 1, 2, 3, 4, 5, 6)
     for run in runs:
-        for tgt in ('A', 'B', 'C'):
+        for tgt in targets:
             for alg in ('a', 'b', 'ab'):
                 for cfg, (av, sv, vv) in CONFIGS.items():
                     if quick_subset and cfg != 'base' and tgt != 'A':
@@ -229,8 +232,8 @@ def work(args):
             all_loads(ctx, ref, dict(rep, mutation='reopen'), 'reopen', True)
             if quick and mask % 16 != 3:
                 continue
-            dawgie.db.add('C')
-            all_loads(ctx, ref, dict(rep, mutation='add C'), 'add-target', True)
+            dawgie.db.add('D')        # a target nothing was ever stored for
+            all_loads(ctx, ref, dict(rep, mutation='add D'), 'add-target', True, targets=('A', 'B', 'C', 'D'))
             for e in content[:3]:
                 store(e, '*')
                 ref_put(ref, e, '*')
